@@ -29,6 +29,19 @@ const (
 
 type c11Dicts struct {
 	app44, app50, transport *datadictionary.DataDictionary
+	custApp                 *datadictionary.DataDictionary // FIX44 with a custom header and a custom trailer field declared
+}
+
+// fingerprint: the sizes of every message's field tables (parsing must leave the dictionaries as loaded).
+func (d *c11Dicts) fingerprint() int {
+	n := 0
+	for _, dd := range []*datadictionary.DataDictionary{d.app44, d.app50, d.transport, d.custApp} {
+		for _, m := range dd.Messages {
+			n += len(m.Fields) + len(m.Tags) + len(m.RequiredTags)
+		}
+		n += len(dd.FieldTypeByTag) + len(dd.Header.Fields) + len(dd.Trailer.Fields)
+	}
+	return n
 }
 
 var (
@@ -38,7 +51,13 @@ var (
 )
 
 func c11Load() (*c11Dicts, error) {
-	c11Once.Do(func() {
+	c11Once.Do(func() { c11D, c11Err = c11LoadFresh() })
+	return c11D, c11Err
+}
+
+// c11LoadFresh loads a private set of dictionaries.
+func c11LoadFresh() (c11D *c11Dicts, c11Err error) {
+	func() {
 		d := &c11Dicts{}
 		if d.app44, c11Err = datadictionary.Parse(specDir + "FIX44.xml"); c11Err != nil {
 			return
@@ -58,14 +77,26 @@ func c11Load() (*c11Dicts, error) {
 		if d.transport, c11Err = datadictionary.ParseSrc(strings.NewReader(s)); c11Err != nil {
 			return
 		}
+		raw44, err := os.ReadFile(specDir + "FIX44.xml")
+		if err != nil {
+			c11Err = err
+			return
+		}
+		a := string(raw44)
+		a = strings.Replace(a, "</header>", "<field name='CustHdr' required='N'/></header>", 1)
+		a = strings.Replace(a, "<field name='CheckSum' required='Y'/>", "<field name='CustTrl' required='N'/><field name='CheckSum' required='Y'/>", 1)
+		a = strings.Replace(a, "<fields>", "<fields><field number='5001' name='CustHdr' type='STRING'/><field number='5050' name='CustTrl' type='STRING'/>", 1)
+		if d.custApp, c11Err = datadictionary.ParseSrc(strings.NewReader(a)); c11Err != nil {
+			return
+		}
 		c11D = d
-	})
+	}()
 	return c11D, c11Err
 }
 
 type c11Case struct {
 	Msg    string `json:"msg_hex"`
-	Config int    `json:"config"` // 0 none, 1 app dictionary, 2 customised transport + app
+	Config int    `json:"config"` // 0 none, 1 app dictionary, 2 customised transport + app, 3 customised app dictionary alone
 	Expect string `json:"expect"` // ok | error
 	Note   string `json:"note,omitempty"`
 	Reuse  int    `json:"reuse,omitempty"` // 0: parsed into a fresh Message; k>0: into a Message that first parsed c11Predecessors[k-1]
@@ -150,11 +181,22 @@ func c11ReuseText(cs c11Case) string {
 	return ""
 }
 
+// c11Eval (replays): private dictionaries, so that a parse that alters them is seen.
 func c11Eval(cs c11Case) (rule, what string) {
-	d, err := c11Load()
+	d, err := c11LoadFresh()
 	if err != nil {
 		return "C11/engine", err.Error()
 	}
+	fp := d.fingerprint()
+	rule, what = c11EvalWith(cs, d)
+	if rule == "" && d.fingerprint() != fp {
+		raw, _ := hex.DecodeString(cs.Msg)
+		return "C11/D-dictionary-changed-by-parsing", fmt.Sprintf("parsing %s (config %d) altered the dictionary it was parsed with: later messages are read differently", fixscan.Pretty(raw), cs.Config)
+	}
+	return
+}
+
+func c11EvalWith(cs c11Case, d *c11Dicts) (rule, what string) {
 	raw, _ := hex.DecodeString(cs.Msg)
 	pan := safely(func() { rule, what = c11EvalInner(cs, raw, d) })
 	if pan != "" {
@@ -174,6 +216,8 @@ func c11EvalInner(cs c11Case, raw []byte, d *c11Dicts) (string, string) {
 			_ = quickfix.ParseMessageWithDataDictionary(m, bytes.NewBuffer(prev), nil, d.app44)
 		case 2:
 			_ = quickfix.ParseMessageWithDataDictionary(m, bytes.NewBuffer(prev), d.transport, d.app50)
+		case 3:
+			_ = quickfix.ParseMessageWithDataDictionary(m, bytes.NewBuffer(prev), nil, d.custApp)
 		}
 	}
 	in := append([]byte{}, raw...)
@@ -185,6 +229,9 @@ func c11EvalInner(cs c11Case, raw []byte, d *c11Dicts) (string, string) {
 		err = quickfix.ParseMessageWithDataDictionary(m, bytes.NewBuffer(in), nil, d.app44)
 	case 2:
 		err = quickfix.ParseMessageWithDataDictionary(m, bytes.NewBuffer(in), d.transport, d.app50)
+	case 3: // application dictionary only, and it declares custom header/trailer fields: without a transport
+		// dictionary they are body fields
+		err = quickfix.ParseMessageWithDataDictionary(m, bytes.NewBuffer(in), nil, d.custApp)
 	}
 	if cs.Expect == "error" {
 		if err == nil {
@@ -282,7 +329,7 @@ func runC11(c *core.Ctx) {
 	if !quick {
 		maxFields = 7
 	}
-	c.SetRule(fmt.Sprintf("all well-formed messages with <= %d fields after 8/9/35 drawn from a tag universe covering every classifier branch (standard header tags, dictionary-only header/trailer tags, body tags of 1-6 digits, SignatureLength/Signature, XMLDataLen+XMLData with SOH and '=' inside, a dictionary-defined repeating group) x 3 field orders x 5 value rotations x 3 dictionary configurations, each parsed into a fresh Message and into a Message that parsed one of two other messages before (a long one with signature, custom trailer field and group; one with separators inside XMLData); plus BodyLength corruptions and all permutations of the three leading fields; independent scanner as oracle", maxFields))
+	c.SetRule(fmt.Sprintf("all well-formed messages with <= %d fields after 8/9/35 drawn from a tag universe covering every classifier branch (standard header tags, dictionary-only header/trailer tags, body tags of 1-6 digits, SignatureLength/Signature, XMLDataLen+XMLData with SOH and '=' inside, a dictionary-defined repeating group) x 3 field orders x 5 value rotations x 4 dictionary configurations (none; application; customised transport + application; an application dictionary alone that declares custom header/trailer fields), on dictionaries private to each worker whose field tables must be unchanged afterwards, each parsed into a fresh Message and into a Message that parsed one of two other messages before (a long one with signature, custom trailer field and group; one with separators inside XMLData); plus BodyLength corruptions and all permutations of the three leading fields; independent scanner as oracle", maxFields))
 	c.Assume("tags are distinct within a message (except repeating-group members)", "dictionary-only header/trailer tags come from a customised copy of FIXT11.xml")
 	hdrTags := []int{49, 56, 34, 52, 50, 115, 1128, custHdr}
 	bodyTags := []int{1, 11, 55, 58, 9999, 123456}
@@ -312,10 +359,27 @@ func runC11(c *core.Ctx) {
 		go func() {
 			defer wg.Done()
 			var n int64
+			d, derr := c11LoadFresh()
+			if derr != nil {
+				c.EngineError(derr.Error())
+				return
+			}
+			fp := d.fingerprint()
 			for cs := range jobs {
 				for reuse := 0; reuse <= len(c11Predecessors); reuse++ {
 					cs.Reuse = reuse
-					rule, what := c11Eval(cs)
+					rule, what := c11EvalWith(cs, d)
+					if rule == "" && d.fingerprint() != fp {
+						// confirm on private dictionaries (c11Eval), then carry on with a pristine set
+						if rule, what = c11Eval(cs); rule == "" {
+							rule, what = "C11/D-dictionary-changed-by-parsing", "the dictionaries differ from their loaded state after parsing (the altering message is among the earlier ones of this worker)"
+						}
+						if d, derr = c11LoadFresh(); derr != nil {
+							c.EngineError(derr.Error())
+							return
+						}
+						fp = d.fingerprint()
+					}
 					n++
 					if rule != "" {
 						if reuse > 0 && !strings.Contains(rule, "reused-message") {
@@ -401,7 +465,7 @@ func runC11(c *core.Ctx) {
 						}
 					}
 					raw := fixscan.Build(fields)
-					for cfg := 0; cfg < 3; cfg++ {
+					for cfg := 0; cfg < 4; cfg++ {
 						if hasGroup && cfg == 0 {
 							continue // repeated member tags need the dictionary that defines the group
 						}
@@ -418,7 +482,7 @@ func runC11(c *core.Ctx) {
 								continue
 							}
 							r := append(append(append([]byte{}, raw[:i9+2]...), v...), raw[e9:]...)
-							for cfg := 0; cfg < 3; cfg++ {
+							for cfg := 0; cfg < 4; cfg++ {
 								jobs <- c11Case{Msg: hex.EncodeToString(r), Config: cfg, Expect: "error", Note: "bodylength:" + v}
 							}
 						}
@@ -438,7 +502,7 @@ func runC11(c *core.Ctx) {
 								for _, f := range sm[3:] {
 									fmt.Fprintf(&out, "%d=%s\x01", f.Tag, f.Value)
 								}
-								for cfg := 0; cfg < 3; cfg++ {
+								for cfg := 0; cfg < 4; cfg++ {
 									jobs <- c11Case{Msg: hex.EncodeToString(out.Bytes()), Config: cfg, Expect: "error", Note: fmt.Sprintf("leading-order:%v", p)}
 								}
 							}
